@@ -106,8 +106,8 @@ theorem panos_poll_block :
         .ite .err "err != nil" (.ret .keep ["err"]) .skip ;;
         xmlUnmarshal ;;
         .ite .err "err != nil" (.ret .keep ["err"]) .skip ;;
-        .ite (.flag .pend) "¬$new.Result != \"PEND\"" .cont
-          (.ite (.flag .jobOk) "¬$new.Result != \"OK\"" (.ret .nil ["nil"]) (.ret .err ["_"]))) env s) := by
+        .ite (.flag .pend) "¬$v.Result != \"PEND\"" .cont
+          (.ite (.flag .jobOk) "¬$v.Result != \"OK\"" (.ret .nil ["nil"]) (.ret .err ["_"]))) env s) := by
   intro env s hj
   by_cases hm : s.mode = .run
   · have h1 := panosDoCmd_spec _ panosRep .save (.lit "show jobs") env s hj hm
